@@ -124,6 +124,7 @@ async fn doc_cursor(
 /// Resolves the identifier under the cursor inside the procedure `p`.
 /// The name in the procedure's own header denotes the procedure,
 /// even if one of its parameters or variables has the same name;
+/// a name in a type position denotes a type;
 /// everywhere else locals come before globals.
 fn lookup_ident<'a>(
     doc: &'a AnalyzedSource,
@@ -137,7 +138,19 @@ fn lookup_ident<'a>(
         .get(p.to_range())
         .and_then(|tokens| tokens.get(p.name.to_range().end.checked_sub(1)?))
         .map_or(false, |token| token.range == ident.range);
-    if is_own_name {
+    // In a type position (directly after `:` or `of`) only global names are visible:
+    // parameter types are resolved in the global table,
+    // and a local variable hiding the type of a later declaration is an error.
+    let is_type_position = doc
+        .tokens
+        .iter()
+        .take_while(|token| token.range.end <= ident.range.start)
+        .filter(|token| !matches!(token.token_type, TokenType::Comment(_)))
+        .last()
+        .map_or(false, |token| {
+            matches!(token.token_type, TokenType::Colon | TokenType::Of)
+        });
+    if is_own_name || is_type_position {
         doc.table.lookup(&ident.value).map(Entry::from)
     } else {
         LookupTable {
